@@ -56,6 +56,16 @@ def jacts(acts):
 
 def build_frame(fs):
   """frame spec (JSON dict) -> bytes"""
+  raw = _build_frame(fs)
+  if fs.get("vlan") and fs.get("vlan2"):
+    # a second 802.1Q tag under the first (the 12-tuple only looks at the
+    # outer one: dl_type is then 0x8100)
+    vid, pcp = fs["vlan2"]
+    raw = raw[:16] + struct.pack("!HH", 0x8100, (pcp << 13) | vid) + raw[16:]
+  return raw
+
+
+def _build_frame(fs):
   dst = bytes.fromhex(fs["dst"])
   src = bytes.fromhex(fs["src"])
   vlan = tuple(fs["vlan"]) if fs.get("vlan") else None
